@@ -615,19 +615,56 @@ def inline_new_helpers(j, max_rounds=4):
 
 
 class Facts:
-    def __init__(self, path_or_json):
+    def __init__(self, path_or_json, fn_renames=None, moved_adts=None):
         if isinstance(path_or_json, str):
             with open(path_or_json) as f:
                 j = json.load(f)
         else:
             j = path_or_json
         self.moved_adts = {}
+        if moved_adts and j.get('crate') != 'kira':
+            # a harness crate's facts: the types kira moved to other modules are mapped back as they were on kira's own facts
+            import re as _re
+            text = json.dumps(j)
+            for n_ in sorted(moved_adts, key=len, reverse=True):
+                text = _re.sub(r'(?<![A-Za-z0-9_])' + _re.escape(n_) + r'(?![A-Za-z0-9_])', (lambda o: (lambda m: o))(moved_adts[n_]), text)
+            j = json.loads(text)
+            self.moved_adts = dict(moved_adts)
         if j.get('crate') == 'kira':
             import os
             bp = os.path.join(os.path.dirname(os.path.dirname(os.path.abspath(__file__))), 'tables', 'names_baseline.json')
             if os.path.exists(bp):
                 j, self.moved_adts = relocate_moved_adts(j, json.load(open(bp)))
         self.renamed_fns, self.renamed_fields = canonicalise_names(j)
+        if fn_renames and j.get('crate') != 'kira':
+            # facts of a harness crate that depends on kira: kira's functions appear as a dependency's (no signatures to match
+            # here), so the renames found on kira's own facts are applied to the paths of this crate's bodies and instances
+            def _fp(p):
+                q = norm(p) if isinstance(p, str) else p
+                for n_, o_ in fn_renames.items():
+                    if q == n_:
+                        return o_
+                    if isinstance(q, str) and q.startswith(n_ + '::'):
+                        return o_ + q[len(n_):]
+                return p
+            def _walk(x):
+                if isinstance(x, dict):
+                    c = x.get('callee')
+                    if isinstance(c, dict):
+                        for k_ in ('path', 'resolved'):
+                            if k_ in c:
+                                c[k_] = _fp(c[k_])
+                    for v_ in x.values():
+                        _walk(v_)
+                elif isinstance(x, list):
+                    for v_ in x:
+                        _walk(v_)
+            for b_ in j['bodies']:
+                b_['path'] = _fp(b_['path'])
+                _walk(b_['blocks'])
+            for i_ in j['instances']:
+                i_['path'] = _fp(i_['path'])
+            self.renamed_fns = dict(fn_renames)
         self.renamed_params = canonicalise_params(j)
         self.inlined = inline_new_helpers(j)
         self.j = j
